@@ -36,6 +36,8 @@ type Obligation struct {
 }
 
 type Verifier struct {
+	forkCall  *ast.CallExpr // call that may fork the enclosing statement (withFork)
+	forkFrame *Frame
 	eng   *Engine
 	prog  *Prog
 	curFn string
@@ -243,8 +245,11 @@ func (v *Verifier) execStmt(fr *Frame, st *State, s ast.Stmt) []*State {
 	case *ast.BlockStmt:
 		return v.execBlock(fr, st, x.List)
 	case *ast.ExprStmt:
-		v.eval(fr, st, x.X)
-		return []*State{st}
+		call, _ := unparen(x.X).(*ast.CallExpr)
+		return v.withFork(fr, st, call, func(st *State) []*State {
+			v.eval(fr, st, x.X)
+			return []*State{st}
+		})
 	case *ast.DeclStmt:
 		gd := x.Decl.(*ast.GenDecl)
 		if gd.Tok == token.VAR {
@@ -275,8 +280,19 @@ func (v *Verifier) execStmt(fr *Frame, st *State, s ast.Stmt) []*State {
 		}
 		return []*State{st}
 	case *ast.AssignStmt:
-		v.execAssign(fr, st, x)
-		return []*State{st}
+		var call *ast.CallExpr
+		if len(x.Rhs) == 1 {
+			call, _ = unparen(x.Rhs[0]).(*ast.CallExpr)
+			for _, l := range x.Lhs {
+				if call != nil && !v.simpleArgs(fr, &ast.CallExpr{Fun: ast.NewIdent("_"), Args: []ast.Expr{l}}) {
+					call = nil
+				}
+			}
+		}
+		return v.withFork(fr, st, call, func(st *State) []*State {
+			v.execAssign(fr, st, x)
+			return []*State{st}
+		})
 	case *ast.IncDecStmt:
 		loc := v.lvalue(fr, st, x.X)
 		cur := v.eng.load(st, loc)
